@@ -15,7 +15,7 @@ import numpy as np
 
 from ..poly import z3mod
 from ..tv import Compiled, hold_terms, project_block
-from ..rogen import core_specs, random_spec, desc_from_spec
+from ..rogen import core_specs, random_spec, random_pw_spec, desc_from_spec
 from ..smt import HarnessError, fval
 from ..harness import finding
 from ..util import quiet
@@ -43,6 +43,7 @@ def cases(tier, seed, rnd):
     specs = core_specs()
     n = 16 if tier == 'quick' else 400
     specs += [random_spec(rnd, i) for i in range(n)]
+    specs += [random_pw_spec(seed, i) for i in range(6 if tier == 'quick' else 100)]
     return [dict(spec=s) for s in specs]
 
 
